@@ -497,7 +497,7 @@ pub fn c03(tier: Tier) -> i32 {
     let mut all_stats = Vec::new();
     for (label, seed) in [("S0", vec![]), ("S1", crate::checks_t::seed("S1")), ("S4", crate::checks_t::seed("S4"))] {
         let m = Collector {
-            inner: TowerModel { label: format!("C03/{label}"), cfg, seed: seed.clone(), alphabet: a.clone(), props: vec!["C03"], probe: false },
+            inner: TowerModel { label: format!("C03/{label}"), cfg, seed: seed.clone(), alphabet: a.clone(), props: vec!["C03"], probe: false, forgery: None },
             seen: std::sync::Mutex::new(Vec::new()),
         };
         let d = if label == "S0" { depth } else { depth - 1 };
